@@ -39,7 +39,7 @@ def run(chk):
                'OS directory semantics; no concurrent writers')
     for c in (K.object_family_add_contract(), KP.memory_add_contract()):
         chk.prove(c); chk.canary(c)
-    for c in (K.memory_all_versions_contract(), K.memory_query_contract()):          # what comes out of a memory source: every version held / every stored object, passed through exactly the filters in force
+    for c in (K.memory_get_contract(), K.memory_all_versions_contract(), K.memory_query_contract()):          # what comes out of a memory source: every version held / every stored object, passed through exactly the filters in force
         chk.prove(c); chk.canary(c)
     from vf.check import SRC_ROOT
     K.filename_obligations(chk, SRC_ROOT)          # distinct serialized instants get distinct file names
